@@ -1506,6 +1506,11 @@ class ProvBundle(object):
         # TODO: Check unification rules in the PROV-CONSTRAINTS document
         # This method simply merges the records having the same name
         merged_records = dict()
+        # Merged records are built in a scratch bundle that resolves names through
+        # this bundle, so that re-validating their attributes does not register
+        # namespaces in (i.e. modify) the bundle being unified.
+        scratch = ProvBundle(identifier=self._identifier)
+        scratch._namespaces.parent = self._namespaces
         groups = defaultdict(list)
         for identifier, records in self._id_map.items():
             for record in records:
@@ -1514,7 +1519,9 @@ class ProvBundle(object):
             if len(records) > 1:
                 # more than one record having the same identifier
                 # merge the records
-                merged = records[0].copy()
+                merged = PROV_REC_CLS[records[0].get_type()](
+                    scratch, records[0].identifier, records[0].attributes
+                )
                 for record in records[1:]:
                     merged.add_attributes(record.attributes)
                 # map all of them to the merged record
